@@ -122,7 +122,12 @@ def oracle(c, st):
         if op == 1:
             return None if o[:3] == i[:3] and o[3:] == i[:3] else ('C15:from_point', 'from_point is not the degenerate box of the point')
         b1 = i[:6]
-        if not wf(b1): return None
+        if not wf(b1):
+            # an inverted box (min > max on some axis: the empty set, e.g. the "intersection" of two disjoint boxes or an
+            # accumulator started at +inf/-inf) has no points to keep, but the point it is grown by must be in the result
+            if op == 3 and not inside(o, Q3(i[6:9])):
+                return ('C15:union-point', 'from_union_point(%r, %r) = %r does not contain the point' % (b1, i[6:9], o))
+            return None
         if op in (2, 4, 5):
             b2 = i[6:12]
             if not wf(b2): return None
